@@ -18,6 +18,10 @@ func (c *WebserverConfig) verify() error {
 	if c.Listen.Read() == "" {
 		return fmt.Errorf("webserver.listen cannot be empty")
 	}
+	if c.ApiDisabled.Read() && !c.DashboardDisabled.Read() {
+		// The dashboard needs the API; starting with this combination aborts the process.
+		return fmt.Errorf("webserver.api_disabled cannot be set while the dashboard is enabled")
+	}
 	return nil
 }
 
